@@ -328,6 +328,16 @@ def diff_obs(outdir, limit=50):
             if len(m) > 1 and m[1] == "unmodelled":
                 unm += 1
                 continue
+            if len(m) > 1 and len(a) > 1 and m[1].endswith("#*"):
+                # the model does not keep the access log of a failed run: compare the outcome only
+                if m[1][:-2] == "unmodelled":
+                    unm += 1
+                    continue
+                if a[1].split("#", 1)[0] == m[1][:-2]:
+                    continue
+            if len(m) > 1 and len(a) > 1 and m[1].startswith("unmodelled#"):
+                unm += 1
+                continue
             if len(m) > 1 and len(a) > 1 and "unmodelled" in m[1]:
                 # an observation made of several components (a history): compare the
                 # components the model covers
